@@ -101,3 +101,39 @@ Theorem C13_frames_any_clock : forall zd zi br (clock : site -> bool) (inflate :
   Forall2 (fun a b => frame_same (optimize_alpha o) (frame_picture inflate (hdr (raw p)) a) (frame_picture inflate (hdr (raw p)) b)) (frames p) fs'.
 Proof. intros zd zi br clock inflate o p f fs' e. exact (recompress_frames_top_pixels e inflate o p f fs'). Qed.
 Print Assumptions C13_frames_any_clock.
+
+(* ================================================================ the complete file-to-file statements under an arbitrary clock *)
+From OxiVerif Require Import Spec.Apng Proofs.ContainerOk Proofs.ChunkFlow Proofs.ApngFile Proofs.OutputProofs.
+
+(* C01 file to file without any container hypothesis, whichever checks of the clock see it expired *)
+Theorem C13_file_to_file_any_clock : forall zd zi br (clock : site -> bool) o (inflate : list Z -> option (list Z)) bytes out pic nm ih rest M,
+  let e := {| z_deflate := zd; z_inflate := zi; e_brute := br; dl := clock |} in
+  optimize_alpha o = false -> scale_16 o = false ->
+  bytes_ok bytes -> lenZ bytes + 5 <= M -> M + 4 < 2 ^ 31 -> (forall d s, lenZ (z_deflate e d s) <= M) ->
+  spec_parse_png bytes = Some ((nm, ih) :: rest) ->
+  spec_decode_chunks inflate ((nm, ih) :: rest) = Some pic ->
+  List.filter (named spec_IHDR) rest = [] ->
+  (length (List.filter (named spec_PLTE) rest) <= 1)%nat -> (length (List.filter (named spec_tRNS) rest) <= 1)%nat ->
+  (forall x n y, z_inflate e x n = Ok y -> inflate x = Some y /\ bytes_ok y) ->
+  (forall d s, inflate (z_deflate e d s) = Some s) ->
+  (forall p, from_slice e bytes o = Ok p ->
+     spec_raw_size (width (hdr (raw p))) (height (hdr (raw p))) (bpp (hdr (raw p))) (interlaced (hdr (raw p))) true <= usize_max /\
+     wf_ctype (ctype (hdr (raw p))) (depth (hdr (raw p)))) ->
+  optimize_from_memory e o bytes = Ok out ->
+  spec_decode_png inflate out = Some pic.
+Proof. intros zd zi br clock o inflate bytes out pic nm ih rest M e. exact (optimize_from_memory_lossless e o inflate bytes out pic nm ih rest M). Qed.
+Print Assumptions C13_file_to_file_any_clock.
+
+(* the animation read by the APNG specification, whichever frames the clock lets through *)
+Theorem C13_animation_any_clock : forall zd zi br (clock : site -> bool) o bytes out cs fr,
+  let e := {| z_deflate := zd; z_inflate := zi; e_brute := br; dl := clock |} in
+  keeps_animation o -> bytes_ok bytes -> lenZ bytes < 2 ^ 32 ->
+  spec_parse_png bytes = Some cs ->
+  Forall (fun c => named spec_IDAT c = true -> snd c <> []) cs ->
+  spec_apng_frames cs = Some fr ->
+  optimize_from_memory e o bytes = Ok out ->
+  out = bytes \/
+  exists p', out = output p' /\ output p' = PNG_SIG ++ serialize (output_chunks p') /\
+    exists fr', spec_apng_frames (output_chunks p') = Some fr' /\ Forall2 frame_rel fr fr'.
+Proof. intros zd zi br clock o bytes out cs fr e. exact (apng_file_to_file e o bytes out cs fr). Qed.
+Print Assumptions C13_animation_any_clock.
